@@ -13,6 +13,9 @@ EXPLANATION = (
     "outside a reviewed (kind, producer) table; I5 every TypeChecker::declare_runtime_* result is converted into a RegistrationError "
     "and propagated (duplicate names become errors)."
 )
+EXPLANATION += (
+    ' I6 every get_scope_of lookup during registration takes scope and identifier from the same item (a module: the scope being walked and its ident; a type: name.scope and name.ident), which is what lets the reviewed unwraps of I4 succeed for impl blocks that are not next to their type.'
+)
 ASSUMPTIONS = [
     "crate-internal generic signatures (Function::new_generic, pub(crate) unsafe) are well-formed: parse_sig/evaluate_type_expr unwraps are reachable only from there",
     "OutPtr is not exported, so HAS_OUT_PTR closures cannot be registered by downstream code",
